@@ -90,10 +90,10 @@ func genOp(t *rapid.T) kit.Cmd {
 		}
 		return c("hdel", args...)
 	case 11:
-		by := gen.Pick(t, "by", "1", "-1", "5", "4611686018427387904", "-4611686018427387904", "9223372036854775807", "-9223372036854775808", "abc", "", "1.5")
+		by := gen.Pick(t, "by", "1", "-1", "5", "0", "-0", "4611686018427387904", "-4611686018427387904", "9223372036854775807", "-9223372036854775808", "abc", "", "1.5")
 		return c("hincrby", k, field(t), by)
 	case 12:
-		by := gen.Pick(t, "byf", "0.5", "-0.5", "1", "1e300", "-1e300", "abc", "", "2.25", "1.7e308", "1.7e308", "-1.7e308", "1e308", "inf", "-inf", "nan", "+Inf", "infinity", "1e400", "0x10", " 1")
+		by := gen.Pick(t, "byf", "0.5", "-0.5", "1", "0", "-0.0", "1e300", "-1e300", "abc", "", "2.25", "1.7e308", "1.7e308", "-1.7e308", "1e308", "inf", "-inf", "nan", "+Inf", "infinity", "1e400", "0x10", " 1")
 		return c("hincrbyfloat", k, field(t), by)
 	case 13:
 		switch rapid.IntRange(0, 3).Draw(t, "form") {
